@@ -148,11 +148,13 @@ func init() {
 				return []*engine.Scenario{
 					mk("c17-module", cfg, world.ModuleStores, []int{3, 1, 1, 3, 2}, 8),
 					mk("c17-pipeline", full, world.AllStores, []int{2, 1, 2, 3, 1}, 6),
+					unionScenario("C17", "c17-union", tier, c17Step, nil),
 				}
 			}
 			return []*engine.Scenario{
 				mk("c17-module", cfg, world.ModuleStores, []int{2, 1, 1, 2, 1}, 4),
 				mk("c17-pipeline", full, world.AllStores, []int{1, 1, 1, 2, 1}, 3),
+				unionScenario("C17", "c17-union", tier, c17Step, nil),
 			}
 		},
 		Assumptions: []string{
